@@ -165,7 +165,7 @@ def filler_payload(eng, name, L, head=10, tail=4):
 
 
 def run_unknown(L, res):
-    for num in (4072, 1070, 999):
+    for num in (4072, 1070, 999, 0xD30):     # 0xD30: the payload itself starts with the frame preamble byte
         def build(eng, num=num):
             p = filler_payload(eng, "p", L)
             eng.assume(msgdrv.fterm(SymBytes(p.e[:2]).term(), 16, 0, 12) == num)
